@@ -101,7 +101,12 @@ def run_tlc(module, cfg_text, tmpdir, extra_modules=None, workers=1, simulate=No
     cfg = os.path.join(work, module + '.cfg')
     with open(cfg, 'w') as fh:
         fh.write(cfg_text)
+    # an explicit heap bound: the JVM default (a quarter of the machine's memory per process) lets a dozen checks running side by
+    # side ask for more memory than there is (TLC was killed by the kernel when 16 scratch trees were checked at once); the
+    # largest model here (C03 thorough, 4e5 states) needs well under 1 GB
     cmd = ['java', '-XX:+UseParallelGC']
+    if not any(o.startswith('-Xmx') for o in (java_opts or [])):
+        cmd.append(os.environ.get('VERIF_TLC_XMX', '-Xmx3g'))
     cmd += list(java_opts or [])
     cmd += ['-cp', TLA_CP, 'tlc2.TLC', '-workers', str(workers),
             '-metadir', os.path.join(work, 'meta'), '-noGenerateSpecTE', '-seed', str(seed)]
